@@ -460,6 +460,8 @@ class Executor:
         k = len(self.trace)
         if k < len(self.prefix):
             val = self.prefix[k]
+            if not isinstance(val, bool):
+                raise Unsupported('re-execution diverged: a value choice is recorded where a branch decision is made')
             self.trace.append(val)
             c = cond if val else z3.Not(cond)
             self.pc.append(c)
@@ -523,17 +525,47 @@ class Executor:
             raise Infeasible()
 
     def concretize(self, iv, limit=64):
-        """make an integer concrete on this path (forks over its feasible values)"""
+        """make an integer concrete on this path (forks over its feasible values).  The value chosen is RECORDED in the decision
+        trace, so that the re-execution along a prefix is deterministic (a solver model may differ between two runs)."""
         c = iv.conc()
         if c is not None:
             return c
         for _ in range(limit):
-            m = self.model_for()
+            k = len(self.trace)
+            if k < len(self.prefix):
+                ent = self.prefix[k]
+                if not isinstance(ent, tuple):
+                    raise Unsupported('re-execution diverged: a branch decision is recorded where a value choice is made')
+                _, v, taken = ent
+                cond = iv.e == bv(v, iv.bits)
+                self.trace.append(ent)
+                cnd = cond if taken else z3.Not(cond)
+                self.pc.append(cnd)
+                self.solver.add(cnd)
+                self.cur_model = None
+                if taken:
+                    return v
+                continue
+            self.stats['decisions'] += 1
+            m = getattr(self, 'cur_model', None)
             if m is None:
-                raise Infeasible()
+                st, m = self.check_model(z3.BoolVal(True))
+                if st == 'unknown':
+                    raise BoundExceeded('solver returned unknown on a value choice')
+                if m is None:
+                    raise Infeasible()
             v = m.eval(iv.e, model_completion=True).as_long()
-            if self.decide(iv.e == bv(v, iv.bits)):
-                return v
+            cond = iv.e == bv(v, iv.bits)
+            sf, _m2 = self.check_model(z3.Not(cond))
+            if sf == 'unknown':
+                raise BoundExceeded('solver returned unknown on a value choice')
+            if sf == 'sat':
+                self.pending.append(self.trace + [('v', v, False)])
+            self.trace.append(('v', v, True))
+            self.pc.append(cond)
+            self.solver.add(cond)
+            self.cur_model = m
+            return v
         raise BoundExceeded('too many values for a symbolic integer that must be concrete')
 
     # ---- MIR execution -------------------------------------------------------------------------------
@@ -758,6 +790,10 @@ class Executor:
                 return I(x, False, 'u8') if z3.is_bv(x) else x
             if isinstance(v, Agg) and v.ty == 'array':
                 return v.fields[idx]
+            if isinstance(v, VecV):
+                if idx >= len(v.items):
+                    raise Panic('index out of bounds')
+                return v.items[idx]
             if isinstance(v, Str):
                 return I(v.b[idx], False, 'u8')
             raise Unsupported(f'index into {v!r}')
@@ -794,6 +830,11 @@ class Executor:
             return
         if last[0] == 'i' and isinstance(v, Agg):
             v.fields[last[1]] = val
+            return
+        if last[0] == 'i' and isinstance(v, VecV):
+            if last[1] >= len(v.items):
+                raise Panic('index out of bounds')
+            v.items[last[1]] = val
             return
         raise Unsupported(f'write through {last} into {v!r}')
 
